@@ -752,7 +752,7 @@ theorem filterStep_inv (S : Hit → Prop) (st : List Hit × Hit) (m : Hit)
         · exact h2
         · simp only at h2 hb; omega
       · exact h1 h hh
-    · exact ⟨h1, h2⟩
+    · exact ⟨h1, Or.inl hm⟩
 
 theorem filterFold_inv (S : Hit → Prop) (l : List Hit) (st : List Hit × Hit)
     (h1 : ∀ h ∈ st.1, S h) (h2 : S st.2 ∨ st.2.2.2 ≥ 10000) (hl : ∀ h ∈ l, S h) :
